@@ -568,3 +568,75 @@ def SecParse(inp, tab, ev):
     if ok:
         ok, pk = call(lambda: {"secc": B(pk.sec(True))})
     ev["res"] = res_of(ok, pk)
+
+
+# ----------------------------------------------------------- C05 addresses
+def emitted_address_oracle(tab, s):
+    """Hash256 of the body of an emitted Base58Check string (for Classify)"""
+    if isinstance(s, str):
+        body = R.b58check_body(s)
+        if body is not None:
+            tab.hash256(body)
+
+
+@act
+def Addr(inp, tab, ev):
+    from btc_hd_wallet import BaseWallet
+    from btc_hd_wallet.bip32 import PubKeyNode
+    from btc_hd_wallet.keys import PublicKey
+    from . import refwallet as W
+    K = bytes(inp["K"])
+    sec = K if inp["compressed"] else tab.uncompress(K)
+    W.ref_addr(tab, inp["kind"], sec, inp["net"])
+    test = inp["net"] == "test"
+    if inp["via"] == "wallet":
+        node = PubKeyNode(key=K, chain_code=bytes(32), testnet=test)
+        w = BaseWallet(master=node, testnet=test)
+        ok, v = call(getattr(w, inp["kind"] + "_address"), node)
+    else:
+        ok, v = call(lambda: PublicKey.parse(K).address(compressed=inp["compressed"], testnet=test, addr_type=inp["kind"]))
+    if ok:
+        emitted_address_oracle(tab, v)
+    ev["res"] = res_of(ok, v, T)
+
+
+@act
+def ScriptTpl(inp, tab, ev):
+    from btc_hd_wallet import script
+    fn = getattr(script, inp["tpl"] + "_script")
+    ok, v = call(lambda: fn(bytes(inp["h"])).raw_serialize())
+    ev["res"] = res_of(ok, v, B)
+
+
+@act
+def Hash(inp, tab, ev):
+    from btc_hd_wallet import helper, ripemd
+    msg = bytes(inp)
+    tab.ripemd160(msg)
+    tab.hash160(msg)
+    calls = []
+    real = getattr(ripemd, "compress", None)
+
+    def le(x):
+        return B(x.to_bytes(max(1, (x.bit_length() + 7) // 8), "little")) if x >= 0 else [-1]
+
+    def tapped(h0, h1, h2, h3, h4, block):
+        out = real(h0, h1, h2, h3, h4, block)
+        calls.append({"sin": [le(x) for x in (h0, h1, h2, h3, h4)], "block": B(block), "sout": [le(x) for x in out]})
+        return out
+    if real is not None:
+        ripemd.compress = tapped
+    try:
+        ok, v = call(lambda: {"rip": B(ripemd.ripemd160(msg))})
+        ncalls = len(calls)
+        if ok:
+            ok2, v2 = call(helper.hash160, msg)
+            if ok2:
+                v["h160"] = B(v2)
+            else:
+                ok, v = ok2, v2
+    finally:
+        if real is not None:
+            ripemd.compress = real
+    ev["calls"] = calls[:ncalls] if ok else []
+    ev["res"] = res_of(ok, v)
